@@ -12,7 +12,7 @@ cleanup() { git -C /repo worktree remove --force "$W" >/dev/null 2>&1 || rm -rf 
 trap cleanup EXIT
 cd "$W"
 run_demo() {  # $1 = label
-  if [ -f "$SD/demo.sh" ]; then (cd "$W" && bash "$SD/demo.sh" "$CARGO_TARGET_DIR/debug/naija") > "$SD/confirm.$1.txt" 2>&1
+  if [ -f "$SD/demo.sh" ]; then (cd "$W" && NAIJA="$CARGO_TARGET_DIR/debug/naija" bash "$SD/demo.sh" "$CARGO_TARGET_DIR/debug/naija") > "$SD/confirm.$1.txt" 2>&1
   elif [ -f "$SD/demo.ns" ]; then timeout 60 "$CARGO_TARGET_DIR/debug/naija" "$SD/demo.ns" 2>&1 | sed 's/\x1b\[[0-9;]*m//g; s/thread .main. ([0-9]*)/thread main/' > "$SD/confirm.$1.txt"
   elif ls "$SD"/*.rs >/dev/null 2>&1; then cp "$SD"/*.rs tests/; t=$(basename "$(ls "$SD"/*.rs | head -1)" .rs); cargo test --offline --test "$t" > "$SD/confirm.$1.txt" 2>&1; echo "exit=$?" >> "$SD/confirm.$1.txt"; rm -f tests/$t.rs
   else echo "no demo" > "$SD/confirm.$1.txt"; fi
